@@ -43,6 +43,11 @@ def main():
         shutil.copytree("/repo", repo, ignore=shutil.ignore_patterns(".git", "__pycache__", "*.egg-info"))
         rc, out = sh(["git", "init", "-q"], cwd=repo)
         rc, out = sh(["git", "apply", "--whitespace=nowarn", os.path.abspath(a.patch)], cwd=repo)
+        if rc != 0:
+            # /repo may have moved on since the patch was made: retry with fuzz
+            rc, out2 = sh(["patch", "-p1", "--fuzz=3", "-i", os.path.abspath(a.patch)], cwd=repo)
+            res["applied_with_fuzz"] = rc == 0
+            out += out2
         res["applied"] = rc == 0
         if rc != 0:
             res["apply_error"] = out[-400:]
